@@ -32,7 +32,7 @@ ASSUMPTIONS_COMMON = [
 
 def san_env():
     e = dict(os.environ)
-    e["ASAN_OPTIONS"] = "abort_on_error=1:detect_leaks=0:allocator_may_return_null=0:handle_abort=1:detect_stack_use_after_return=0:malloc_context_size=8"
+    e["ASAN_OPTIONS"] = "abort_on_error=1:detect_leaks=0:allocator_may_return_null=0:handle_abort=1:detect_stack_use_after_return=0:malloc_context_size=8:max_allocation_size_mb=6144"
     e["UBSAN_OPTIONS"] = "abort_on_error=1:print_stacktrace=1"
     e["NIFLY_REPO"] = REPO
     e["NIFLY_VERIF"] = VERIF
